@@ -17,11 +17,16 @@ def plans(quick):
                  checks=[dict(steps=4, slots=1, lists=[['u1'], ['m12']])],
                  gen=dict(steps=3, slots=1, lists=[['u1'], ['m12']], restart=False), cover_limit=100, walks=40,
                  sim=dict(num=100, depth=10)),
+            # every storable data type (a generator task adds a record from its generator body; results that cannot
+            # be stored fail after run returned)
+            dict(family='kinds', opts=opts,
+                 gen=dict(steps=4, slots=1, lists=[['k1']], restart=False), cover_limit=150, walks=40,
+                 sim=dict(num=100, depth=12, lists=[['k1'], ['k2']])),
         ]
     return [
         dict(family=f, opts=opts, checks=[dict(steps=5, slots=2)], gen=dict(steps=4, slots=1), walks=300, walk_len=16,
              sim=dict(num=2000, depth=18))
-        for f in ('chain', 'mounts', 'diamond')
+        for f in ('chain', 'mounts', 'diamond', 'kinds')
     ]
 
 
